@@ -436,7 +436,10 @@ func runAtomicConsistency(c *core.Ctx, rule string, scope func(*ssa.Function) bo
 
 func runC14(c *core.Ctx) {
 	defer func() {
+		c.Rule("R14.12", "a *math/rand.Rand held in a struct field of the batching pool is used from at most one of the goroutines the package starts", 1)
+		checkRandConfined(c, "R14.12")
 		c.Share(map[string]string{"R6.3": "R14.9"}, runC06)
+		c.Share(map[string]string{"R13.14": "R14.11"}, runC13) // the pooled connection's stream field is written by recovery and read by the batcher without synchronisation: a data race
 		c.Share(map[string]string{"R12.1": "R14.10"}, runC12) // a lock leaked by one connection's failure blocks other connections' commands on that stripe  // two requests of one batch under one opaque: a connection receives another connection's reply
 		c.Share(map[string]string{"R17.1": "R14.8"}, runC17)  // the in-memory backend is one instance shared by all connections: its map is shared mutable state
 	}()
